@@ -378,7 +378,17 @@ def boundary_defaults_into(rnd, doc):
                     rng = schemagen.INT_FORMATS.get(f, (I64MIN, I64MAX))
                     cand = [rng[0], rng[1]] + ([2**53 + 1] if rng[1] > 2**53 else [])
                 elif t == "integer":
-                    cand = [x for x in (lo, hi) if x is not None and x != 0] or None
+                    # effective bounds: the exclusive forms may be the binding ones (a default equal to a slack
+                    # inclusive bound would be INVALID and rightly rejected) and multipleOf must divide the value
+                    if s.get("exclusiveMinimum") is not None:
+                        lo = s["exclusiveMinimum"] + 1 if lo is None else max(lo, s["exclusiveMinimum"] + 1)
+                    if s.get("exclusiveMaximum") is not None:
+                        hi = s["exclusiveMaximum"] - 1 if hi is None else min(hi, s["exclusiveMaximum"] - 1)
+                    m = s.get("multipleOf")
+                    cand = [x for x in (lo, hi) if x is not None and x != 0 and float(x).is_integer()
+                            and (not m or x % m == 0)] or None
+                    if cand:
+                        cand = [int(x) for x in cand]
                 elif t == "string" and len([k for k in s if k not in ("type", "default")]) == 0:
                     cand = ["", "\u00e9\u65e5\u672c", "a\"b\\c{d}\n", "x" * 3000]
                 elif t == "boolean":
